@@ -343,7 +343,11 @@ def r_scalar(ctx, a):
             y = x_init
             for _ in range(k): y = step(y)
             ctx.oracle('k steps under jit + lax.scan (repeated) and k eager python steps give the same scalar component',
-                       all(np.array_equal(np.asarray(p), np.asarray(q)) for p, q in zip(dyn.tree_leaves(x), dyn.tree_leaves(y))),
+                       # XLA may contract a*b+c into a fused multiply-add under jit: the two modes agree to rounding per step, not
+                       # bit for bit (thorough tier, rk4, 300 steps: 8.5e-12 at |t| = 244; false alarm of a bitwise comparison)
+                       all(np.shape(p) == np.shape(q) and bool(np.all(np.abs(np.asarray(p, dtype=np.float64) - np.asarray(q, dtype=np.float64))
+                                                                <= 2.0 ** -36 * (np.abs(np.asarray(q, dtype=np.float64)) + abs(dt) * k)))
+                           for p, q in zip(dyn.tree_leaves(x), dyn.tree_leaves(y))),
                        {'scan': dyn.tree_leaves(x), 'loop': dyn.tree_leaves(y)})
     else:
         for _ in range(k):
